@@ -52,7 +52,11 @@ def main():
             res["check_tail"] = out[-1200:]
             res["caught"] = rc == 1 and any(l.startswith("VIOLATION") for l in res["check_lines"])
             res["caught_with_failing_input"] = res["caught"] and any("no-failing-input-found" not in l for l in res["check_lines"] if l.startswith("VIOLATION"))
-            # keep the replay of the first violation next to the seed
+            # keep the replay of the first violation next to the seed (replacing those of earlier runs)
+            if os.path.isdir(dst):
+                for fn in os.listdir(dst):
+                    if fn.startswith("replay-") and any("replay=" in l for l in res["check_lines"]):
+                        os.remove(os.path.join(dst, fn))
             for l in res["check_lines"]:
                 m = re.search(r"replay=(\S+)", l)
                 if m and os.path.exists(m.group(1)):
